@@ -476,7 +476,19 @@ def W_wait(ctx):
     # notify(): unpark the registered thread
     nf = ctx.method('WaitSlot', 'notify')
     ok = any(calls(p, 'Thread::unpark') for p in feasible(nf.paths()))
-    ctx.ob('W1', nf, 'notify-unparks-registered-thread', ok, '', site=nf.loc(nf.b['lo']))
+    badn = []
+    for p in feasible(nf.paths()):
+        reg = [a for a in p.events if option_fact(a) and mentions_field(option_fact(a)[0], 'WaitSlot.thread')]
+        un = calls(p, 'Thread::unpark')
+        if not reg:
+            badn.append('notify() can return without consulting the registered thread')
+        elif reg[0] and option_fact(reg[0])[1] == 'Some' and not (un and mentions_field(un[0].d['args'][0], 'WaitSlot.thread')):
+            badn.append('a thread is registered but notify() does not unpark it')
+        first_call = [e for e in p.events if e.kind == 'call' and not is_noise_call(e.d['callee'])]
+        if first_call and not (mentions_field(first_call[0].d['args'][0] if first_call[0].d['args'] else ('const', ''), 'WaitSlot.thread')):
+            badn.append(f'notify() consults {short(first_call[0].d["callee"])} before the registered thread (a notification may be filtered out)')
+    ctx.ob('W1', nf, 'notify-unparks-registered-thread', ok and not badn, '; '.join(sorted(set(badn))[:2]), site=nf.loc(nf.b['lo']),
+           what='every notification must publish the park token of the registered waiter; a notify() that can skip the unpark (a coalescing flag, an early return) loses the wake-up whenever its skip condition is stale')
     # registration precedes waiting, on the same slot
     for m, slot in (('run_finality_loop', 'finality_wait'), ('run_commit_loop', 'commit_wait')):
         g = ctx.method('scheduler::Scheduler<DB>', m)
